@@ -480,7 +480,14 @@ let run_ksim (dump : Stdlib.String.t list) (hist : Stdlib.String.t) (out : Buffe
           let idle = k_is_idle_cfg cfg !k && zidle () in
           let (k', block) = k_can_block cfg !k (n_of_int 1) in
           k := k';
-          Buffer.add_string out (Printf.sprintf "Q@%d idle=%d block=%d\n" !tick (if idle then 1 else 0) (if block then 1 else 0))
+          Buffer.add_string out (Printf.sprintf "Q@%d idle=%d block=%d\n" !tick (if idle then 1 else 0) (if block then 1 else 0));
+          let ms = List.sort (fun (a, _) (b, _) -> compare (int_of_n a) (int_of_n b)) (!k).k_dyn_macros in
+          List.iter (fun (id, items) ->
+            let f = function
+              | DMPress (kc, d) -> Printf.sprintf "P%d,%d" (int_of_n kc) (int_of_n d)
+              | DMRelease (kc, d) -> Printf.sprintf "R%d,%d" (int_of_n kc) (int_of_n d)
+              | DMEnd i -> Printf.sprintf "E%d" (int_of_n i) in
+            Buffer.add_string out (Printf.sprintf "DM@%d %d : %s\n" !tick (int_of_n id) (String.concat " " (List.map f items)))) ms
         | 't' ->
           for _ = 1 to int_of_string rest do
             let blocked = (match !loop_mode with
